@@ -177,25 +177,44 @@ Proof. vm_compute. repeat split. Qed.
    (triplet.a, triplet.representation) in the statement order of the source.  Model/DriftGen.v states the chain on it
    (a_after_init / rep_after_init = the triplet after MarkovChainProcess.__init__ / MarkovChainLevyCopula.__init__). *)
 
-(* what the dispatch does: the triplet ends in the target representation; a target different from the current representation
-   calls exactly the generated conversion registered for it (an unregistered key is the error value: KeyError); the same target
-   again changes nothing *)
+(* DEFINITIONAL on the generated term (unfold; destruct; reflexivity): its content is that the term is regenerated from the source.
+   What the dispatch does: the triplet ends in the target representation; the same target again changes nothing; a target
+   different from the current representation calls exactly the generated conversion registered for it -- stated UNDER THE GUARD
+   (wave 8, audit 5a B5): fv = true or neither side is ZERO.  Outside the guard the Python call raises ValueError and the value of
+   the generated term is NOT the behaviour of the call (err is a value that arithmetic does not propagate: center_drift 1 false a
+   = err + tails; Example C04_error_value_not_absorbing); an unregistered key is the error value (KeyError). *)
 Theorem C04_set_representation_dispatch : forall (m1t : Q -> Q -> Q) pinf err t rep fv a,
   snd (set_representation m1t pinf err t rep fv a) = t
   /\ set_representation m1t pinf err t t fv a = (a, t)
   /\ (let s := set_representation m1t pinf err t rep fv a in set_representation m1t pinf err t (snd s) fv (fst s) = s)
-  /\ (rep <> 1%Z -> fst (set_representation m1t pinf err 1 rep fv a) = zero_drift m1t pinf err rep fv a)
-  /\ (rep <> 2%Z -> fst (set_representation m1t pinf err 2 rep fv a) = center_drift m1t pinf err rep fv a)
-  /\ (rep <> 3%Z -> fst (set_representation m1t pinf err 3 rep fv a) = canonical_drift m1t pinf err rep fv a)
-  /\ (rep <> 4%Z -> fst (set_representation m1t pinf err 4 rep fv a) = tilde_drift m1t pinf err rep fv a)
+  /\ (rep <> 1%Z -> fv = true -> fst (set_representation m1t pinf err 1 rep fv a) = zero_drift m1t pinf err rep fv a)
+  /\ (rep <> 2%Z -> fv = true \/ rep <> 1%Z -> fst (set_representation m1t pinf err 2 rep fv a) = center_drift m1t pinf err rep fv a)
+  /\ (rep <> 3%Z -> fv = true \/ rep <> 1%Z -> fst (set_representation m1t pinf err 3 rep fv a) = canonical_drift m1t pinf err rep fv a)
+  /\ (rep <> 4%Z -> fv = true \/ rep <> 1%Z -> fst (set_representation m1t pinf err 4 rep fv a) = tilde_drift m1t pinf err rep fv a)
   /\ (~ (t = 1 \/ t = 2 \/ t = 3 \/ t = 4)%Z -> t <> rep -> fst (set_representation m1t pinf err t rep fv a) = err).
 Proof.
   intros. destruct (set_representation_dispatch m1t pinf err rep fv a) as (D1 & D2 & D3 & D4 & D5).
-  repeat split; try assumption.
-  - apply set_representation_lands.
-  - apply set_representation_same.
-  - apply set_representation_idempotent.
-  - intros. apply D5; assumption.
+  split; [apply set_representation_lands|]. split; [apply set_representation_same|]. split; [apply set_representation_idempotent|].
+  split; [intros; apply D1; assumption|]. split; [intros; apply D2; assumption|]. split; [intros; apply D3; assumption|].
+  split; [intros; apply D4; assumption|]. intros. apply D5; assumption.
+Qed.
+
+(* the error value is not absorbing in the GENERATED term, and is made absorbing by the observation wrapper (Model/DriftGen.v
+   setrep_call_raises): density 3 on [-2,0], 3/2 on [0,3]; ZERO-declared, infinite variation -> CENTER: the generated term is the
+   number err + 3/2 (not err), the wrapper the correspondence compares with the code says None (the call raises ValueError); and
+   the wrapper is the generated term whenever the guard of the theorems holds *)
+Example C04_error_value_not_absorbing :
+  let ps := [(-2, 0, 3); (0, 3, 3#2)] in
+  Qeq_bool (fst (set_representation (tmass (step_m1 ps) (-2) 3) 6 chain_err 2 1 false (3#8))) (chain_err + (3#2)) = true
+  /\ Qeq_bool (fst (set_representation (tmass (step_m1 ps) (-2) 3) 6 chain_err 2 1 false (3#8))) chain_err = false
+  /\ step_set_representation ps (-2) 3 2 1 false (3#8) = None
+  /\ step_set_representation ps (-2) 3 3 1 false (3#8) = None /\ step_set_representation ps (-2) 3 1 2 false (3#8) = None
+  /\ (forall t rep fv, (fv = true \/ (rep <> 1 /\ t <> 1)%Z) -> setrep_call_raises t rep fv = false).
+Proof.
+  assert (G : forall t rep fv, (fv = true \/ (rep <> 1 /\ t <> 1)%Z) -> setrep_call_raises t rep fv = false).
+  { intros t rep fv [-> | [A B]]; [reflexivity|]. unfold setrep_call_raises.
+    destruct (Z.eqb_spec t 1); [contradiction|]. destruct (Z.eqb_spec rep 1); [contradiction|]. rewrite !Bool.andb_false_r. reflexivity. }
+  repeat split; try (vm_compute; reflexivity). exact G.
 Qed.
 
 (* route independence: rep -> t1 -> t2 gives the drift of rep -> t2 (in particular rep -> t1 -> rep gives a back), for EVERY
@@ -292,11 +311,15 @@ Proof.
   - apply copula_variance_matrix_symmetric; assumption.
 Qed.
 
-(* what is added per margin / cross term: the diagonal is the sigma_h^2 of the 1-d chain of EVERY margin (so the copula chain and
-   the 1-d chain of a margin add the same variance), PROVIDED vol_adjustment_ij(k,k) returns margin k's central-cell second moment
-   (hypothesis: the nquad quadrature / Fubini identity is not modelled; compared numerically on step margins -- hence _partial, the
-   repair of F-C04-5 does not remove this hypothesis); a cross term vanishes whenever one of the two margins has jumps of finite variation *)
-Theorem C04_copula_diagonal_is_margin_chain_partial :
+(* CONDITIONAL + REPACKAGING (entries theorem plus a rewrite; m2s, ls, rs, h occur only through the hypothesis and sig_h2).
+   IF vol_adjustment_ij(k,k) returned margin k's second moment over the margin's central cell {|x_k| <= h/2}, the diagonal would be
+   the sigma_h^2 of the 1-d chain of every margin.  On /repo this hypothesis holds ONLY when the Levy measure has no mass in the
+   strip {|x_k| <= h/2, some |x_j| > h/2} (independent copula: mass on the axes; tables supported in cube + outside the strips):
+   vol_adjustment_ij integrates over the central CUBE.  For a copula with mass off the axes it is FALSE (Clayton, CGMY y = 1.3,
+   h = 0.1: -6.2 % and -3.1 %; table witness: 1/384 against 1/96) -- finding F-C04-6, C04_copula_margin_variance_is_1d_chain_refuted.
+   (renamed in wave 8 from C04_copula_diagonal_is_margin_chain_partial.)  Second conjunct: a cross term vanishes whenever one of the
+   two margins has jumps of finite variation (unconditional). *)
+Theorem C04_copula_diagonal_is_margin_chain_if_no_strip_mass_partial :
   forall (d : nat) (flags : list bool) (sigmas : list Q) (m2s : nat -> Q -> Q -> Q) (ls rs : nat -> Q) (h : Q) vadj,
   length flags = d ->
   (forall k, (k < d)%nat -> nth k flags false = false -> vadj k k == vol_adj2 (tmass (m2s k) (ls k) (rs k)) false h) ->
@@ -308,6 +331,36 @@ Theorem C04_copula_diagonal_is_margin_chain_partial :
 Proof.
   intros. split; [apply copula_diagonal_is_margin_chain; assumption|]. intros. apply copula_cross_term_zero; try assumption. tauto.
 Qed.
+
+(* BOOKKEEPING, without the hypothesis: for a margin of infinite variation the diagonal entry is the 1-d chain's sigma_h^2 MINUS
+   the amount by which vol_adjustment_ij(k,k) falls short of the margin's central-cell second moment (m2t k = any second-moment
+   function of margin k) *)
+Theorem C04_copula_diagonal_gap : forall (d : nat) (flags : list bool) (sigmas : list Q) (m2t : nat -> Q -> Q -> Q) (h : Q) vadj,
+  length flags = d -> forall k, (k < d)%nat -> nth k flags false = false ->
+  copula_variance_matrix_cur d flags (map (fun s => s * s) sigmas) vadj k k
+  == sig_h2 (m2t k) (nth k sigmas 0) false h - (vol_adj2 (m2t k) false h - vadj k k).
+Proof. exact copula_diagonal_gap. Qed.
+
+(* REFUTED (finding F-C04-6): "each margin of a copula chain gets sigma_k^2 + the second moment of ITS central cell".  tab2_vadj t h =
+   what vol_adjustment_ij integrates on a 2-d density table t: the central cube [-h/2,h/2]^2 (Model/CopulaDiffusion.v; tied to
+   /repo by the correspondence group copulastrip on the matrix handed to sqrtm); tab2_margin_m2 t big k = the second-moment
+   function of margin k of the same table (what the 1-d chain of that margin integrates).  Witness: density 1 on [0,1]^2 and
+   [-1,0]^2, h = 1/2: the copula chain adds 1/384 to margin 0, its 1-d chain 1/96; the difference 1/128 is the second moment of x_0
+   over {|x_0| <= 1/4, |x_1| > 1/4}: those jumps move the chain to states whose coordinate 0 is 0. *)
+Theorem C04_copula_margin_variance_is_1d_chain_refuted :
+  exists (t : table2) (h big : Q) (sigmas : list Q) (k : nat),
+    0 < h /\ (k < 2)%nat
+    /\ copula_variance_matrix_cur 2 [false; false] (map (fun s => s * s) sigmas) (tab2_vadj t h) k k
+       < sig_h2 (tmass (tab2_margin_m2 t big k) (- big) big) (nth k sigmas 0) false h
+    /\ 0 < tab2_strip_gap t big h k.
+Proof. exact copula_margin_variance_is_1d_chain_refuted. Qed.
+Example C04_copula_strip_witness_values :
+  Qeq_bool (copula_variance_matrix_cur 2 [false; false] (map (fun s => s * s) [1#2; 1#4]) (tab2_vadj strip_witness (1#2)) 0%nat 0%nat) ((1#4) + (1#384)) = true
+  /\ Qeq_bool (sig_h2 (tmass (tab2_margin_m2 strip_witness 1 0%nat) (-(1)) 1) (1#2) false (1#2)) ((1#4) + (1#96)) = true
+  /\ Qeq_bool (copula_variance_matrix_cur 2 [false; false] (map (fun s => s * s) [1#2; 1#4]) (tab2_vadj strip_witness (1#2)) 1%nat 1%nat) ((1#16) + (1#384)) = true
+  /\ Qeq_bool (sig_h2 (tmass (tab2_margin_m2 strip_witness 1 1%nat) (-(1)) 1) (1#4) false (1#2)) ((1#16) + (1#96)) = true
+  /\ Qeq_bool (tab2_strip_gap strip_witness 1 (1#2) 0%nat) (1#128) = true.
+Proof. exact strip_witness_values. Qed.
 
 (* non-vacuity: d = 3, margins (iv, fv, iv), outputs 11 12 13 / 22 23 / 33 in the pool's order: the matrix keeps 11, 13, 33 only *)
 Example C04_copula_matrix_nonvacuous :
@@ -345,6 +398,7 @@ Print Assumptions C04_variance_gap.
 Print Assumptions C04_step_m1_additive.
 Print Assumptions C04_nonvacuous.
 Print Assumptions C04_set_representation_dispatch.
+Print Assumptions C04_error_value_not_absorbing.
 Print Assumptions C04_set_representation_route_independent.
 Print Assumptions C04_generated_dispatch_is_a_tilde.
 Print Assumptions C04_generated_chain_is_hand_chain.
@@ -354,7 +408,10 @@ Print Assumptions C04_mean_identity_generated_infinite_variation.
 Print Assumptions C04_copula_margins_generated.
 Print Assumptions C04_dispatch_nonvacuous.
 Print Assumptions C04_copula_variance_matrix_entries.
-Print Assumptions C04_copula_diagonal_is_margin_chain_partial.
+Print Assumptions C04_copula_diagonal_is_margin_chain_if_no_strip_mass_partial.
+Print Assumptions C04_copula_diagonal_gap.
+Print Assumptions C04_copula_margin_variance_is_1d_chain_refuted.
+Print Assumptions C04_copula_strip_witness_values.
 Print Assumptions C04_copula_matrix_nonvacuous.
 Print Assumptions C04_copula_joint_flag_before_repair.
 Print Assumptions C04_gen_compute_mu_h_is_model.
